@@ -22,6 +22,40 @@ pub struct Token {
 
 pub type ErrTok = Token;
 
+/// The same identity as a `Token` but without drop glue (`needs_drop::<PTok>() == false`), for code
+/// paths that specialise on that. Not drop-tracked; validated when handed out.
+#[repr(C)]
+#[derive(Debug, Clone, Copy)]
+pub struct PTok {
+    magic: u64,
+    tid: u32,
+    chk: u32,
+}
+impl PTok {
+    pub fn new(child: Cid) -> PTok {
+        let (tid, nonce) = w(|x| (x.new_tok(TokKind::OutPlain, child, 0), x.nonce));
+        PTok {
+            magic: MAGIC,
+            tid,
+            chk: tid ^ nonce,
+        }
+    }
+    pub fn valid(&self) -> Option<u32> {
+        if self.magic != MAGIC {
+            return None;
+        }
+        let (n, nonce) = w(|x| (x.toks.len() as u32, x.nonce));
+        if self.tid < n && self.chk == self.tid ^ nonce {
+            Some(self.tid)
+        } else {
+            None
+        }
+    }
+    pub fn raw(&self) -> (u64, u32, u32) {
+        (self.magic, self.tid, self.chk)
+    }
+}
+
 impl Token {
     pub fn new(kind: TokKind, child: Cid, seq: u32) -> Token {
         let (tid, nonce) = w(|x| (x.new_tok(kind, child, seq), x.nonce));
@@ -105,6 +139,25 @@ impl Kind for Try {
 impl Kind for Unit {
     type Out = ();
     fn make(_id: Cid, _fail: bool) {}
+}
+/// outputs without drop glue
+pub struct PlainND;
+pub struct TryND;
+impl Kind for PlainND {
+    type Out = PTok;
+    fn make(id: Cid, _fail: bool) -> PTok {
+        PTok::new(id)
+    }
+}
+impl Kind for TryND {
+    type Out = Result<PTok, ErrTok>;
+    fn make(id: Cid, fail: bool) -> Self::Out {
+        if fail {
+            Err(Token::new(TokKind::Err, id, 0))
+        } else {
+            Ok(PTok::new(id))
+        }
+    }
 }
 
 pub struct ScriptFut<K: Kind> {
